@@ -304,19 +304,24 @@ static void note_alloc_site()
   const int n = backtrace(pcs, 48);
   snprintf(SH->alloc_site, sizeof SH->alloc_site, "unknown");
   if (!__sanitizer_symbolize_pc) return;
+  const bool dbg = getenv("C17_DEBUG_BT") != nullptr;
   for (int i = 1; i < n; ++i)
     {
-      char buf[1024];
-      buf[0] = 0;
-      __sanitizer_symbolize_pc((char*)pcs[i] - 1, "%f|%s", buf, sizeof buf);
-      const char* bar = strrchr(buf, '|');
-      if (!bar) continue;
-      const std::string file = bar + 1;
-      if (file.find(g_repo + "/src/") != 0 || file.find("/include/stir/VectorWithOffset") != std::string::npos || file.find("/include/stir/Array") != std::string::npos
-          || file.find("/include/stir/NumericVectorWithOffset") != std::string::npos)
-        continue;
-      snprintf(SH->alloc_site, sizeof SH->alloc_site, "%s:%s", file.substr(file.rfind('/') + 1).c_str(), fn_core(std::string(buf, bar - buf)).c_str());
-      return;
+      // the symbolizer writes one zero-terminated string per (inlined) frame of this pc, innermost first, then an empty string
+      char buf[4096];
+      memset(buf, 0, sizeof buf);
+      __sanitizer_symbolize_pc((char*)pcs[i] - 1, "%f|%s", buf, sizeof buf - 2);
+      for (const char* e = buf; *e && e < buf + sizeof buf - 2; e += strlen(e) + 1)
+        {
+          if (dbg) { FILE* f = fopen("/tmp/c17_bt.txt", "a"); if (f) { fprintf(f, "#%d %s\n", i, e); fclose(f); } }
+          const char* bar = strrchr(e, '|');
+          if (!bar) continue;
+          const std::string file = bar + 1;
+          // first frame in an implementation file of the library (containers and other header-only code are skipped)
+          if (file.find(g_repo + "/src/") != 0 || file.size() < 4 || file.compare(file.size() - 4, 4, ".cxx") != 0) continue;
+          snprintf(SH->alloc_site, sizeof SH->alloc_site, "%s:%s", file.substr(file.rfind('/') + 1).c_str(), fn_core(std::string(e, bar - e)).c_str());
+          return;
+        }
     }
 }
 static void warm_up_symbolizer()
@@ -955,8 +960,9 @@ static std::string mutated_kw(const SeedLines& A, const Mutant& m)
   const Mut& x = m.a;
   if (x.op == refp::OP_TRUNC_BYTE || x.op == refp::OP_TRUNC_LINE) return "(truncation)";
   if (x.line < 0 || x.line >= (int)A.info.size()) return "?";
-  std::string k = A.info[x.line].L.kw;
-  if (A.info[x.line].cont) k = "(continuation line)";
+  int l = x.line;
+  while (l > 0 && A.info[l].cont) --l; // a continuation line belongs to the keyword that starts its logical line
+  std::string k = A.info[l].L.kw;
   if (k.empty()) k = "(blank)";
   for (char& c : k) if (c == ';' || c == '=') c = '.';
   return k;
@@ -1100,16 +1106,17 @@ static void oracle_multi(const Seed& S, int entry, const std::string& kase, cons
 }
 
 // registered objects / KeyParser: the accepted object prints a text that parses back to an object printing the same text
-static void oracle_fixpoint(const Seed& S, int entry, const std::string& kase, const Outcome& o)
+static void oracle_fixpoint(const Seed& S, int entry, const std::string& kase, const Outcome& o, const std::string& mutated)
 {
+  const std::string who = ";class=" + (entry == E_REG ? S.reg_name : std::string("AllTypes")) + ";key=" + mutated;
   Outcome o2;
   run_entry(S, entry, o.canon, o2);
   sh_count("oracle_fixpoint_checked");
   if (o2.cls != ACCEPTED)
-    sh_violation("clause=inconsistent_object;" + ekey(entry) + ";what=own_parameter_text_rejected", kase,
+    sh_violation("clause=inconsistent_object;" + ekey(entry) + ";what=own_parameter_text_rejected" + who, kase,
                  "class " + (entry == E_REG ? S.reg_name : std::string("AllTypes")) + ": the text was accepted, but the parameter_info() text of the resulting object is rejected when parsed: " + short_text(o2.what, 200));
   else if (no_blank_lines(o2.canon) != no_blank_lines(o.canon))
-    sh_violation("clause=inconsistent_object;" + ekey(entry) + ";what=own_parameter_text_parses_to_different_object", kase,
+    sh_violation("clause=inconsistent_object;" + ekey(entry) + ";what=own_parameter_text_parses_to_different_object" + who, kase,
                  "class " + (entry == E_REG ? S.reg_name : std::string("AllTypes")) + ": the text was accepted, but parsing the parameter_info() text of the resulting object gives an object that prints differently: " + first_diff(o.canon, o2.canon));
 }
 
@@ -1229,7 +1236,7 @@ static void judge(const Seed& S, const SeedLines& A, int entry, const Mutant& m,
   if (o.is_image && (S.kind == "img" || S.kind == "dyn" || S.kind == "par") && entry != E_MULTI) oracle_image(S, entry, kase, text, o);
   if (o.is_projdata) oracle_projdata(S, entry, kase, text, o);
   if (entry == E_MULTI) oracle_multi(S, entry, kase, text, o);
-  if (entry == E_REG || entry == E_KP) oracle_fixpoint(S, entry, kase, o);
+  if (entry == E_REG || entry == E_KP) oracle_fixpoint(S, entry, kase, o, mutated_kw(A, m));
   if (entry == E_KP) oracle_kp_slots(S, A, entry, m, kase, o);
 }
 
